@@ -736,6 +736,8 @@ class Domain:
             return self.lib_call("deque:getitem", [v, idx], {})
         if isinstance(v, SymBytes):
             return self.lib_call("bytes:getitem", [v, idx], {})
+        if type(v).__name__ == "ShapeV":
+            return self.lib_call("shape:getitem", [v, idx], {})
         if isinstance(v, (tuple, list)):
             if isinstance(idx, Sym):
                 raise Unsupported("symbolic index into a python sequence")
@@ -776,6 +778,8 @@ class Domain:
             raise Unsupported("iteration over a symbolic-length deque")
         if isinstance(v, RangeV):
             raise Unsupported("iteration over a symbolic range outside a loop invariant")
+        if type(v).__name__ == "ShapeV":
+            return [self.lib_call("shape:getitem", [v, 0], {})]
         if isinstance(v, (tuple, list)):
             return list(v)
         raise Unsupported(f"iteration over {type(v).__name__}")
